@@ -146,7 +146,9 @@ func vfC06(w *vfWorld) {
 			judge(channel+":link", s, v)
 		}
 	}
-	headerSafe := func(s string) bool { return !strings.ContainsAny(s, "\r\n\x00") && strings.TrimSpace(s) == s && s != "" }
+	headerSafe := func(s string) bool {
+		return !strings.ContainsAny(s, "\r\n\x00") && strings.TrimSpace(s) == s && s != ""
+	}
 	// ---- cheap channels: every string of the chunk ----
 	for _, s := range strs {
 		q := url.QueryEscape(s)
